@@ -29,8 +29,8 @@ CONSTANTS Shapes,    \* extents of the initial exporters
           Depth,     \* view operations per behaviour
           Dump
 
-VARIABLES decl, view, nops
-vars == <<decl, view, nops>>
+VARIABLES decl, view, nops, act
+vars == <<decl, view, nops, act>>
 
 ShapesQ == {<<1>>, <<2>>, <<3>>, <<0>>, <<1, 1>>, <<1, 2>>, <<2, 1>>, <<2, 2>>, <<2, 3>>, <<3, 2>>, <<0, 2>>, <<2, 0>>,
             <<2, 2, 2>>, <<1, 2, 3>>, <<2, 1, 2>>, <<3, 2, 1>>}
@@ -83,25 +83,25 @@ ImplOK(dc, v) ==
 ---------------------------------------------------------------------------
 Init == /\ decl \in Decls
         /\ \E sh \in Shapes : view = CView(sh)
-        /\ nops = 0
+        /\ nops = 0 /\ act = "Init"
 
 Swap(d, i, j) == [d EXCEPT ![i] = d[j], ![j] = d[i]]
 Transpose == /\ nops < Depth /\ \E i, j \in 1..Len(view.d) : i < j /\ view' = [view EXCEPT !.d = Swap(@, i, j)]
-             /\ nops' = nops + 1 /\ UNCHANGED decl
+             /\ nops' = nops + 1 /\ act' = "Transpose" /\ UNCHANGED decl
 Second == /\ nops < Depth /\ \E k \in 1..Len(view.d) : view.d[k].n >= 2
                 /\ view' = [view EXCEPT !.d[k].n = (@ + 1) \div 2, !.d[k].s = @ * 2]
-          /\ nops' = nops + 1 /\ UNCHANGED decl
+          /\ nops' = nops + 1 /\ act' = "Second" /\ UNCHANGED decl
 Reverse == /\ nops < Depth /\ \E k \in 1..Len(view.d) : view.d[k].n >= 1
                 /\ view' = [view EXCEPT !.off = @ + (view.d[k].n - 1) * view.d[k].s, !.d[k].s = -@]
-           /\ nops' = nops + 1 /\ UNCHANGED decl
+           /\ nops' = nops + 1 /\ act' = "Reverse" /\ UNCHANGED decl
 Broadcast == /\ nops < Depth /\ \E k \in 1..Len(view.d) : view.d[k].s # 0
                 /\ view' = [view EXCEPT !.d[k].s = 0]
-             /\ nops' = nops + 1 /\ UNCHANGED decl
+             /\ nops' = nops + 1 /\ act' = "Broadcast" /\ UNCHANGED decl
 PadRows == /\ nops < Depth /\ Len(view.d) >= 2
            /\ view' = [view EXCEPT !.d[1].s = IF @ >= 0 THEN @ + 1 ELSE @ - 1]
-           /\ nops' = nops + 1 /\ UNCHANGED decl
+           /\ nops' = nops + 1 /\ act' = "PadRows" /\ UNCHANGED decl
 Indirect == /\ nops < Depth /\ \E k \in 1..Len(view.d) : ~view.d[k].ind /\ view' = [view EXCEPT !.d[k].ind = TRUE]
-            /\ nops' = nops + 1 /\ UNCHANGED decl
+            /\ nops' = nops + 1 /\ act' = "Indirect" /\ UNCHANGED decl
 Next == Transpose \/ Second \/ Reverse \/ Broadcast \/ PadRows \/ Indirect
 Spec == Init /\ [][Next]_vars
 
@@ -121,5 +121,5 @@ Publish == Dump => PrintT("@@" \o ToJson([decl |-> decl, off |-> view.off, shape
                                            strides |-> [k \in 1..Len(view.d) |-> view.d[k].s],
                                            ind |-> [k \in 1..Len(view.d) |-> view.d[k].ind],
                                            ok |-> RefOK(decl, view), iok |-> ImplOK(decl, view), els |-> Els,
-                                           c |-> IsC(view.d), f |-> IsF(view.d), nops |-> nops]))
+                                           c |-> IsC(view.d), f |-> IsF(view.d), nops |-> nops, act |-> act]))
 =============================================================================
